@@ -219,6 +219,7 @@ func (f *fAdapterTransport) Request(fctx FContext, payload []byte) (thrift.TTran
 
 	f.registry.Register(fctx, resultC)
 	defer f.registry.Unregister(fctx)
+	verifYieldCtx("request.registered", fctx)
 
 	ctx, cancelFn := ToContext(fctx)
 	defer cancelFn()
@@ -227,10 +228,13 @@ func (f *fAdapterTransport) Request(fctx FContext, payload []byte) (thrift.TTran
 
 	select {
 	case result := <-resultC:
+		verifYieldCtx("request.got", fctx)
 		return &thrift.TMemoryBuffer{Buffer: bytes.NewBuffer(result)}, nil
 	case err := <-errorC:
+		verifYieldCtx("request.senderr", fctx)
 		return nil, err
 	case <-ctx.Done():
+		verifYieldCtx("request.timeout", fctx)
 		return nil, thrift.NewTTransportException(TRANSPORT_EXCEPTION_TIMED_OUT, "frugal: request timed out")
 	}
 }
